@@ -6,9 +6,9 @@ package main
 // (wrapped/joined) into another variable that is itself consumed.
 
 import (
-	"go/token"
 	"fmt"
 	"go/ast"
+	"go/token"
 	"go/types"
 	"os"
 	"strings"
@@ -21,10 +21,10 @@ type flowOpts struct {
 	Sinks     []string // function keys: passing the error (class kept) to one of these is delivery
 	// SinkParams: function-typed parameters whose call with the error is delivery (the yield of an iterator)
 	SinkParams map[types.Object]bool
-	Require   bool     // the error must pass one of Through before it is returned
-	sanitised bool     // (internal) the value already passed one of Through
-	depth     int
-	visiting  map[string]bool // (internal) (node,var) pairs under evaluation: a cycle is accepted coinductively
+	Require    bool // the error must pass one of Through before it is returned
+	sanitised  bool // (internal) the value already passed one of Through
+	depth      int
+	visiting   map[string]bool // (internal) (node,var) pairs under evaluation: a cycle is accepted coinductively
 }
 
 type flowResult struct {
